@@ -86,6 +86,26 @@ def bits(x):
     return struct.unpack("<Q", struct.pack("<d", float(x)))[0]
 
 
+def fin(h):
+    """hex string (or None) of an implementation output -> is it a finite binary64 value?"""
+    return h is not None and math.isfinite(hf(h))
+
+
+def bits_finite(b):
+    """bit pattern of a binary64 value -> finite?  (exponent field not all ones)"""
+    return (int(b) >> 52) & 0x7FF != 0x7FF
+
+
+def nonfinite_outputs(res):
+    """names of the non-finite (NaN, +-inf) values in one chain result: reported parameters and outputs.  Inside the
+    generator's domain (E^2 >= 0.05 on [0,5], 0 <= z <= 5, distmod only for z > 0) every definition is finite, and the
+    statement demands specific finite values (e.g. sigmacritinv = 0 at or in front of the lens)."""
+    rep, o = res["rep"], res["out"]
+    bad = ["rep[%d]" % i for i in (0, 1, 3, 4, 5) if not fin(rep[i])]
+    bad += [k for k, h in sorted(o.items()) if h is not None and not fin(h)]
+    return bad
+
+
 # ----------------------------------------------------------------------------------------------
 # float port of cosmolib.c (only used to produce the libm oracle tables and the table literals;
 # it is itself checked bit-for-bit against the PrimFloat model and the real code on every run)
@@ -390,7 +410,9 @@ class Params(Entry):
             d = o
             for op in c["ops"]:
                 d = apply_op(d, op)
-            return {"orig": rep_of(o), "clone": rep_of(d), "d_orig": probe(o), "d_clone": probe(d),
+            po, pd = probe(o), probe(d)
+            return {"orig": rep_of(o), "clone": rep_of(d), "d_orig": po, "d_clone": pd,
+                    "probe_finite": all(bits_finite(b) for b in po + pd),
                     "distinct_object": (d is not o) or not c["ops"]}
         return core.guarded(f)
 
@@ -398,8 +420,11 @@ class Params(Entry):
         if out[0] != "ok":
             return "3"          # the constructor / a copy raised inside the domain
         o = out[1]
-        return "v_params %s %s %s %s %s %s" % (c_kw(c["kw"]), core.clist(c["ops"]), c_rep(o["orig"]), c_rep(o["clone"]),
-                                                core.clist(o["d_orig"]), core.clist(o["d_clone"]))
+        t = "v_params %s %s %s %s %s %s" % (c_kw(c["kw"]), core.clist(c["ops"]), c_rep(o["orig"]), c_rep(o["clone"]),
+                                             core.clist(o["d_orig"]), core.clist(o["d_clone"]))
+        if not o.get("probe_finite", True):
+            return "Z.lor 2 (%s)" % t      # a probe distance (all at 0 < z <= 5) is NaN / inf: the checker rejects
+        return t
 
     def nontrivial(self, c, out):
         return bool(c["ops"]) or c["kw"].get("omega_k") not in (None, 0.0)
@@ -631,6 +656,19 @@ class Dispatch(Entry):
         return "(Ok (Ar %s))" % core.clist(v) if k == "ar" else "(Ok (Sc %s))" % cz(v)
 
     def term(self, c, out):
+        t = self._term(c, out)
+        vals = []
+        if out["out"][0] == "ok":
+            k, v = out["out"][1]
+            vals = list(v) if k == "ar" else [v]
+        vals += [row[-1] for row in out.get("tab", [])]
+        if not all(bits_finite(b) for b in vals):
+            # an array slot or a scalar result is NaN / inf although every element (pair) lies inside the domain where the
+            # definitions are finite (distmod is only generated for z >= 0.01): the checker rejects, whatever the model says
+            return "Z.lor 2 (%s)" % t
+        return t
+
+    def _term(self, c, out):
         sh = c["shape"]
         if c["meth"] in TWO:
             tab = "[" + "; ".join("(%s, %s, %s)" % (cz(a), cz(b), cz(v)) for a, b, v in out["tab"]) + "]"
@@ -676,7 +714,7 @@ def cert_items(case, res):
     items = []
     for q in QUANT:
         h = o[OUTKEY[q]]
-        if h is None:
+        if h is None or not fin(h):        # non-finite outputs are reported by the caller (nonfinite_outputs)
             continue
         out = cP(hf(h))
         chk = "check %d %s X5 W5 X10 W10 %s %s %s %s %s" % (CERT_PREC, q, br, cq, z1, z2, out)
@@ -705,9 +743,26 @@ def run_certificates(ctx, results):
     p = port()
     pre = PRE_CERT + tables_defs(p)
     todo = []
+    nf_reported = set()
     for case, res in results:
         if res[0] != "ok":
             continue
+        bad = nonfinite_outputs(res[1])
+        if bad:
+            # NaN / inf cannot enter a real-number certificate: it IS a failing input (never skipped, never an exception)
+            for b in bad:
+                ctx.count("cert:nonfinite:%s" % b)
+            ctx.obligation("outputs finite %r" % (case,), False, "non-finite: %s" % bad)
+            key = tuple(bad)
+            if key not in nf_reported:
+                nf_reported.add(key)
+                ctx.violation("non-finite output (NaN or inf) for %s inside the domain of the definitions; the statement demands a "
+                              "finite value (sigmacritinv = 0 for sources at or in front of the lens, distances equal to their "
+                              "definitions)" % ", ".join(bad),
+                              {"kind": "failing-input", "entry": "cert", "case": case, "nonfinite": bad,
+                               "impl_output": res[1], "class": None}, found_input=True)
+            if any(b.startswith("rep[") for b in bad):
+                continue
         for q, chk, st, pr in cert_items(case, res[1]):
             todo.append((case, res[1], q, chk, st, pr))
     if not todo:
@@ -785,7 +840,7 @@ def accuracy_lemma(case, res):
 
     def add(q, ref):
         h = o[OUTKEY[q]]
-        if h is not None and hf(h) != 0.0:
+        if fin(h) and hf(h) != 0.0:        # non-finite outputs were reported by run_certificates on the same results
             conj.append((q, "within_rel %s (q2R %s) (%s)" % (tol, cP(hf(h)), ref)))
     add("QInt", "I_def %s %s %s" % (cq, Z1, Z2))
     add("QDc", "Dc_def %s %s %s" % (cq, Z1, Z2))
@@ -811,6 +866,8 @@ def run_accuracy(ctx, results):
             continue
         if case["z2"] - case["z1"] < 1e-3:
             continue
+        if any(b.startswith("rep[") for b in nonfinite_outputs(res[1])):
+            continue                          # reported as a failing input by run_certificates
         sel.append((case, res[1]))
     sel = sel[:ctx.n(24, 100)]
     lem, owner = [], []
